@@ -15,6 +15,7 @@ Oracles (all independent of typhon.geodesy):
 import numpy as np
 from hypothesis import strategies as st
 
+from vp.oracle.c07_guard import Guarded
 from vp.runner import Suite
 
 PROP_ID = "C07"
@@ -29,7 +30,9 @@ RULE = (
     "Python/NumPy scalars one by one, 0-d arrays, 1-D, 2-D arrays or "
     "broadcastable mixtures; LOS cases add zenith angles in [1e-3, 180-1e-3] "
     "and azimuths at least 1e-3 deg away from 0/+-180 (log-weighted towards "
-    "these limits); distance cases are 3-8 points on the sphere built from "
+    "these limits), the LOS vector is handed back scaled by a clearly "
+    "non-unit or an almost-unit factor (1 +- 1e-9 .. 1e-2) or rounded to "
+    "float32 / 5-6 decimals; distance cases are 3-8 points on the sphere built from "
     "free points plus copies, antipodes, poles, same-meridian/parallel "
     "points and 360 deg aliases, evaluated as full n x n matrices, plus a "
     "common longitude shift.  An enumerated grid of special latitudes x "
@@ -60,6 +63,8 @@ ASSUMPTIONS = [
     "docstring: 'single number or numpy array'; it stacks columns, so N-d "
     "input is not supported and not claimed)",
     "numpy.longdouble is the x87 80-bit type (eps 1.1e-19)",
+    "every typhon.geodesy call goes through an 'arguments are not modified' "
+    "guard (bitwise comparison of every ndarray argument with a copy)",
     "state that typhon.geodesy keeps between calls survives between the "
     "cases of one shard process; the check cannot reset it, so every case "
     "compares all results (also those for the derived ellipsoids) with "
@@ -399,7 +404,8 @@ def convert_labels(ctx, case, el):
 
 
 def check_convert(case, ctx):
-    from typhon import geodesy as g
+    from typhon import geodesy
+    g = Guarded(geodesy, ctx)
     name = case["ell"]
     el = g.ellipsoidmodels()[name]
     convert_labels(ctx, case, el)
@@ -772,7 +778,8 @@ def check_history(case, ctx):
     """identity checks - history of calls on related ellipsoids - the same
     identity checks again: every oracle against its own reference, and the
     results of the model under test must not have changed"""
-    from typhon import geodesy as g
+    from typhon import geodesy
+    g = Guarded(geodesy, ctx)
     name = case["ell"]
     el = g.ellipsoidmodels()[name]
     ctx.label("history", name, "hist-len-%d" % min(len(case["steps"]), 8))
@@ -867,8 +874,26 @@ def aa_tol(za, aa):
     return 1e-12 + np.minimum(dc / sa, np.sqrt(2 * dc))
 
 
+def ref_angles(lat, lon, vx, vy, vz):
+    """zenith and azimuth angle (deg, float) of the vector v at the
+    geocentric position (lat, lon): east-north-up components in long double,
+    za = atan2(|horizontal|, up), aa = atan2(east, north)"""
+    lat, lon, vx, vy, vz = np.broadcast_arrays(ld(lat), ld(lon), ld(vx),
+                                               ld(vy), ld(vz))
+    p, l = lat * D2R, lon * D2R
+    up = vx * np.cos(p) * np.cos(l) + vy * np.cos(p) * np.sin(l) \
+        + vz * np.sin(p)
+    north = -vx * np.sin(p) * np.cos(l) - vy * np.sin(p) * np.sin(l) \
+        + vz * np.cos(p)
+    east = -vx * np.sin(l) + vy * np.cos(l)
+    za = np.arctan2(np.hypot(north, east), up) * R2D
+    aa = np.arctan2(east, north) * R2D
+    return za.astype(float), aa.astype(float)
+
+
 def check_los(case, ctx):
-    from typhon import geodesy as g
+    from typhon import geodesy
+    g = Guarded(geodesy, ctx)
     a = float(g.ellipsoidmodels()[case["ell"]][0])
     kind = case["kind"]
     ctx.label(case["ell"], "los-kind-" + kind)
@@ -886,6 +911,13 @@ def check_los(case, ctx):
     if kind == "2d":
         ctx.label("array-2d")
     scale = float(case["scale"])
+    mode = case.get("los_mode", "scale")
+    los_info = "scaled by %r" % scale if mode == "scale" else mode
+    ctx.label("los-" + mode)
+    if mode == "scale" and scale != 1.0 and abs(scale - 1.0) <= 1.1e-5:
+        ctx.label("los-near-unit-length")
+    elif mode != "scale":
+        ctx.label("los-near-unit-length")
 
     def one(R, LAT, LON, ZA, AA):
         shape = np.broadcast(R, LAT, LON, ZA, AA).shape or (1,)
@@ -910,8 +942,33 @@ def check_los(case, ctx):
         ctx.check(el_ <= 1e-12, "reference/poslos-los", lambda: (
             "%s: LOS vector differs from the ENU closed form by %.3e"
             % (info(), el_)))
-        back = g.cartposlos2geocentric(x, y, z, scale * dx, scale * dy,
-                                       scale * dz)
+        # the LOS vector handed back: scaled (the function documents that
+        # its length does not matter; also lengths of 1 +- 1e-9 .. 1e-5), or
+        # with components rounded to float32 / to 5-6 decimals.  The expected
+        # angles are those of the vector actually passed (long double).
+        if mode == "scale":
+            vx, vy, vz = scale * dx, scale * dy, scale * dz
+        elif mode == "float32":
+            vx, vy, vz = (np.asarray(v).astype("float32").astype(float)
+                          for v in (dx, dy, dz))
+        else:
+            nd = 5 if mode == "round5" else 6
+            vx, vy, vz = (np.round(np.asarray(v, float), nd)
+                          for v in (dx, dy, dz))
+        za_ref, aa_ref = ref_angles(LATb, LONb, vx, vy, vz)
+        regular = ((za_ref >= 1e-3) & (za_ref <= 180 - 1e-3)
+                   & (np.abs(aa_ref) >= 1e-3) & (np.abs(aa_ref) <= 180 - 1e-3))
+        if mode == "scale":
+            # a positive factor does not change the direction
+            ctx.check(np.all(np.abs(za_ref - ZAb) <= 1e-9) and np.all(
+                np.abs(lon_diff(aa_ref, AAb)) * np.sin(np.deg2rad(ZAb))
+                <= 1e-9), "harness/los-reference", lambda: (
+                    "%s: reference angles %r %r" % (info(), za_ref, aa_ref)))
+        elif not np.all(regular):
+            ctx.label("los-rounded-into-singular")
+        ZAe = np.where(regular, za_ref, ZAb)
+        AAe = np.where(regular, aa_ref, AAb)
+        back = g.cartposlos2geocentric(x, y, z, vx, vy, vz)
         _shape_ok(ctx, "cartposlos2geocentric", back, shape)
         _finite(ctx, "cartposlos2geocentric", *back)
         r2, lat2, lon2, za2, aa2 = back
@@ -920,12 +977,12 @@ def check_los(case, ctx):
                  float(np.max(np.abs(lon_diff(lon2, LONb)))))
         ctx.check(d <= TOL_M and da <= TOL_DEG, "roundtrip/poslos-position",
                   lambda: "%s: errors %.3e m, %.3e deg" % (info(), d, da))
-        dza = float(np.max(np.abs(za2 - ZAb)))
+        dza = float(np.max(np.abs(za2 - ZAe)[regular], initial=0.0))
         ctx.check(dza <= 1e-6, "roundtrip/poslos-zenith", lambda: (
-            "%s: zenith angle error %.3e deg (got %r)"
-            % (info(), dza, za2.tolist())))
-        daa = np.deg2rad(np.abs(lon_diff(aa2, AAb)))
-        lim = aa_tol(ZAb, AAb)
+            "%s, LOS %s: zenith angle error %.3e deg (got %r, expected %r)"
+            % (info(), los_info, dza, za2.tolist(), ZAe.tolist())))
+        daa = np.deg2rad(np.abs(lon_diff(aa2, AAe)))
+        lim = np.where(regular, aa_tol(ZAe, AAe), np.inf)
         ctx.check(np.all(daa <= lim), "roundtrip/poslos-azimuth", lambda: (
             "%s: azimuth error %.3e deg, tolerance %.3e deg (got %r)"
             % (info(), float(np.rad2deg(np.max(daa))),
@@ -978,8 +1035,16 @@ def los_cases(draw):
                         "za": edge_angle(0.0, 180.0, 1e-3), "aa": aa},
                        common_ok=("lat", "za", "aa")))
     case["ell"] = draw(st.sampled_from(ELLIPSOIDS))
-    case["scale"] = draw(st.sampled_from([1.0, 1.0, 2.0, 0.125, 1e3, 1e-3,
-                                          7.3]))
+    # clearly non-unit lengths, and lengths that are "almost" one (a scale
+    # applies to every element of the call, so do the rounding modes)
+    near = st.builds(lambda s, d: 1.0 + s * d, st.sampled_from([1.0, -1.0]),
+                     st.sampled_from([1e-9, 1e-7, 1e-6, 3e-6, 8e-6, 1e-5,
+                                      1e-4, 1e-2]))
+    case["scale"] = draw(st.one_of(
+        st.sampled_from([1.0, 2.0, 0.125, 1e3, 1e-3, 7.3]), near, near))
+    case["los_mode"] = draw(st.sampled_from(["scale", "scale", "scale",
+                                             "scale", "float32", "round5",
+                                             "round6"]))
     case["int_r"] = draw(st.integers(0, 4)) == 0
     return case
 
@@ -988,7 +1053,8 @@ def los_cases(draw):
 # distances
 # --------------------------------------------------------------------------
 def check_distance(case, ctx):
-    from typhon import geodesy as g
+    from typhon import geodesy
+    g = Guarded(geodesy, ctx)
     from typhon import constants
     pts = np.asarray(case["pts"], float)
     lat, lon = pts[:, 0], pts[:, 1]
